@@ -80,12 +80,12 @@ K_LATEX_NONE = "exception:mpo_from_latex:parameters-default-None"
 
 def plan(tier):
     if tier == "thorough":
-        return {"cases": len(KINDS) * len(FAMS) * 80, "shards": 16, "budget_s": 1200}
+        return {"cases": len(KINDS) * len(FAMS) * 48, "shards": 16, "budget_s": 1200}
     return {"cases": len(KINDS) * len(FAMS) * 8, "shards": 8, "budget_s": 200}
 
 
 def floors(tier):
-    k = 8 if tier == "thorough" else 1
+    k = 5 if tier == "thorough" else 1
     return {"evaluations": 900 * k, "mpo_compared": 250 * k, "latex_compared": 80 * k, "m1_values": 150 * k,
             "m2_values": 500 * k, "mn_values": 100 * k, "rdm_elements": 1000 * k, "sample_probs": 100 * k,
             "algebra_relations": 300 * k, "terms_repeated_sites": 20 * k, "terms_descending": 20 * k,
